@@ -43,6 +43,25 @@ def check_prefix(mido, P, msgs, encs, acc):
                           f'parse_all({hexs(data)}) raised {e!r}',
                           {'kind': 'prefix', 'P': list(P), 'M': list(enc)})
             continue
+        if got == base + [sg] and P:
+            # the prefix and the message arriving in two separate feed calls
+            # (the message's own bytes in one call, or one at a time)
+            try:
+                p1 = mido.Parser()
+                p1.feed(FORM[0](P))
+                p1.feed(FORM[0](enc))
+                p2 = mido.Parser()
+                p2.feed(FORM[0](P))
+                for b in enc:
+                    p2.feed(FORM[0]([b]))
+                split = (sigs(list(p1)), sigs(list(p2)))
+            except Exception as e:
+                split = (repr(e), None)
+            if split != (got, got):
+                acc.violation(f'resync-split-feed/{m.type}',
+                              f'feed({hexs(P)}) then feed({hexs(enc)}) (whole / '
+                              f'bytewise) = {split}; expected {got}',
+                              {'kind': 'prefix', 'P': list(P), 'M': list(enc)})
         if got != base + [sg]:
             cls = 'after-partial' if P and any(b >= 0x80 for b in P) else 'after-data'
             acc.violation(f'resync/{m.type}/{cls}',
